@@ -36,7 +36,11 @@ PROBE_MATCH = {"pts": [{0}, {2}], "lines": [{2}, {0}], "polys": [{3}, {4}]}
 
 
 THOROUGH = [False]
-PTS_NAME = ["pts"]          # name of the first geometry column in the current exploration ("pts" or "geometry")
+PTS_NAME = ["pts"]          # naming of the columns in the current exploration: "pts" | "geometry" | "falsy"
+# naming "falsy": the empty string (a falsy label) on a geometry column that is not the first one; integer labels
+# cannot be mixed with string labels in a Dask frame
+NAMINGS = {"pts": {}, "geometry": {"pts": "geometry"}, "falsy": {"lines": ""}}
+KEEP = []                   # collections read earlier from the same files, kept referenced on purpose
 
 
 def base_frame(active):
@@ -45,21 +49,24 @@ def base_frame(active):
     from spatialpandas.geometry import LineArray, PointArray, PolygonArray
     df = GeoDataFrame({
         "val": np.arange(5) * 10,
-        PTS_NAME[0]: PointArray([list(p) for p in PTS]),
-        "lines": LineArray([[c for p in l for c in p] for l in LINES]),
-        "polys": PolygonArray([[r] for r in POLYS]),
-    }, index=pd.Index([100, 101, 102, 103, 104], name="idx"), geometry=active)
+        rn("pts"): PointArray([list(p) for p in PTS]),
+        rn("lines"): LineArray([[c for p in l for c in p] for l in LINES]),
+        rn("polys"): PolygonArray([[r] for r in POLYS]),
+    }, index=pd.Index([100, 101, 102, 103, 104], name="idx"), geometry=rn(active))
     return df
 
 
 def rn(c):
     """model column name -> real column name"""
-    return PTS_NAME[0] if c == "pts" else c
+    return NAMINGS[PTS_NAME[0]].get(c, c)
 
 
 def mn(c):
     """real column name -> model column name"""
-    return "pts" if c == PTS_NAME[0] and c != "pts" else c
+    for k, v in NAMINGS[PTS_NAME[0]].items():
+        if v == c and type(v) is type(c):
+            return k
+    return c
 
 
 class M:
@@ -83,7 +90,7 @@ def ops_for(obj, m, depth):
     g = m.geoms()
     if m.kind == "pd":
         n = len(m.rows)
-        ops += [("iloc_slice", 1, None), ("copy",), ("pickle",), ("concat",), ("head", 3), ("cx", "A"), ("cx", "B")]
+        ops += [("iloc_slice", 1, None), ("copy",), ("pickle",), ("concat",), ("head", 3), ("cx", "A"), ("cx", "B"), ("ctor",)]
         if "val" in m.cols:
             ops += [("filter", 20), ("sort",), ("loc_mask",)]
         if n >= 3:
@@ -112,12 +119,15 @@ def ops_for(obj, m, depth):
         for o in g:
             if o != m.active:
                 ops.append(("d_set_geometry", o))
+        parquet_ok = True
         for o in (g + [None]) if (depth <= 1 or THOROUGH[0]) else [x for x in g if x != m.active][:1]:
-            ops.append(("d_parquet", o))
+            if parquet_ok:
+                ops.append(("d_parquet", o))
         if depth <= 1:
             ops.append(("d_persist",))
             for o in g:
-                ops.append(("d_parquet_bounds", o, "A"))
+                if parquet_ok:
+                    ops.append(("d_parquet_bounds", o, "A"))
     return ops
 
 
@@ -135,7 +145,7 @@ def apply_model(m, op):
         return M("pd", m.cols, m.active, [r for r in m.rows if r * 10 >= 20])
     if t == "sort":
         return M("pd", m.cols, m.active, sorted(m.rows, reverse=True))
-    if t in ("copy", "pickle"):
+    if t in ("copy", "pickle", "ctor"):
         return M("pd", m.cols, m.active, m.rows)
     if t == "concat":
         return M("pd", m.cols, m.active, m.rows + m.rows)
@@ -194,6 +204,9 @@ def apply_real(obj, m, op, scratch):
         return obj.copy()
     if t == "pickle":
         return pickle.loads(pickle.dumps(obj))
+    if t == "ctor":
+        from spatialpandas import GeoDataFrame
+        return GeoDataFrame(obj)
     if t == "concat":
         return pd.concat([obj, obj])
     if t == "head":
@@ -226,6 +239,7 @@ def apply_real(obj, m, op, scratch):
         from spatialpandas.io import read_parquet_dask
         path = os.path.join(scratch, f"c20-{os.getpid()}-{zlib.crc32(repr((m.key(), op)).encode())}.parq")
         obj.to_parquet(path, overwrite=True)
+        _read_before(path, op[1], m)
         return read_parquet_dask(path, geometry=rn(op[1]), bounds=BOXES[op[2]])
     if t == "d_pack":
         return obj.pack_partitions(npartitions=op[1], p=6)
@@ -233,10 +247,25 @@ def apply_real(obj, m, op, scratch):
         from spatialpandas.io import read_parquet_dask
         path = os.path.join(scratch, f"c20-{os.getpid()}-{zlib.crc32(repr((m.key(), op)).encode())}.parq")
         obj.to_parquet(path, overwrite=True)
+        _read_before(path, op[1], m)
         return read_parquet_dask(path, geometry=rn(op[1]) if op[1] else None)
     if t == "compute":
         return obj.compute(scheduler="synchronous")
     raise ValueError(op)
+
+
+def _read_before(path, want, m):
+    """the same files were read before in this process with ANOTHER active geometry, and that collection is still
+    referenced: the read that follows must not be influenced by it"""
+    from spatialpandas.io import read_parquet_dask
+    g = m.geoms()
+    act = want if want is not None else g[0]
+    others = [x for x in g if x != act]
+    if not others:
+        return
+    o = others[0]
+    KEEP.append(read_parquet_dask(path, geometry=None if o == g[0] else rn(o)))
+    del KEEP[:-6]
 
 
 def row_ids(df):
@@ -333,7 +362,8 @@ def check_dask_state(col, obj, m, hist, case):
     col.count("nontrivial")
     # every partition's own active geometry
     try:
-        per = obj.map_partitions(lambda df: pd.DataFrame({"g": [str(getattr(df, "_geometry", None))], "t": [type(df).__name__]}),
+        per = obj.map_partitions(lambda df: pd.DataFrame({"g": pd.Series([getattr(df, "_geometry", None)], dtype=object),
+                                                          "t": [type(df).__name__]}),
                                  meta=pd.DataFrame({"g": pd.Series([], dtype=object), "t": pd.Series([], dtype=object)})
                                  ).compute(scheduler="synchronous")
         col.count("evaluations")
@@ -491,6 +521,66 @@ def explore(col, active, depth, shard, nshards, scratch, pts_name="pts"):
     col.sample({"active": active, "history": [["to_dask", 2], ["d_filter", 20], ["compute"]]})
 
 
+def label_probes(col):
+    """pandas frames whose geometry columns carry unusual labels (0, '', False-like): construction default, geometry=,
+    set_geometry, copy construction, and the derived operations, for every position of the falsy label"""
+    import pandas as pd
+    from spatialpandas import GeoDataFrame
+    from spatialpandas.geometry import LineArray, PointArray, PolygonArray
+    arrays = {"P": lambda: PointArray([list(p) for p in PTS]),
+              "L": lambda: LineArray([[c for p in l for c in p] for l in LINES]),
+              "G": lambda: PolygonArray([[r] for r in POLYS])}
+    sel = {"P": SEL["pts"], "L": SEL["lines"], "G": SEL["polys"]}
+    for labels in ((0, 1, 2), (1, 0, 2), (2, 1, 0), ("", "a", "b"), ("a", "", "b"), ("a", "b", ""), (1, "v", 0), (0.0, 1.5, 2.5)):
+        kinds = dict(zip(labels, "PLG"))
+        def mk(**kw):
+            d = {lab: arrays[k]() for lab, k in kinds.items()}
+            df = pd.DataFrame(d)
+            df.insert(0, "val" if isinstance(labels[0], str) else 99, np.arange(5) * 10)
+            return GeoDataFrame(df, **kw)
+        vlab = "val" if isinstance(labels[0], str) else 99
+
+        def probe(df, want, what):
+            col.count("evaluations")
+            case = {"labels": [repr(x) for x in labels], "what": what, "want": repr(want)}
+            try:
+                got = df.geometry.name
+                if got != want:
+                    col.violation("label.active", case, f"{what}: active geometry {got!r}, expected {want!r} (labels {labels})")
+                    return
+                b = BOXES["A"]
+                rows = [int(v) // 10 for v in df.cx[b[0]:b[2], b[1]:b[3]][vlab].tolist()]
+                exp = [r for r in [int(v) // 10 for v in df[vlab].tolist()] if r in sel[kinds[want]]["A"]]
+                if rows != exp:
+                    col.violation("label.cx", case, f"{what}: cx rows {rows}, the active column {want!r} selects {exp}")
+            except Exception as ex:
+                col.violation("label.raises", case, f"{what}: {type(ex).__name__}: {str(ex)[:150]}")
+        try:
+            probe(mk(), labels[0], "default = first geometry column")
+        except Exception as ex:
+            col.violation("label.raises", {"labels": [repr(x) for x in labels], "what": "construct"}, f"{type(ex).__name__}: {str(ex)[:150]}")
+            continue
+        for lab in labels:
+            probe(mk(geometry=lab), lab, f"GeoDataFrame(geometry={lab!r})")
+            for start in labels:
+                if start == lab:
+                    continue
+                base = mk(geometry=start)
+                d = base.set_geometry(lab)
+                probe(d, lab, f"set_geometry({lab!r}) from {start!r}")
+                probe(base, start, f"source of set_geometry({lab!r})")
+                probe(GeoDataFrame(d), lab, f"GeoDataFrame(frame with active {lab!r})")
+                probe(d.copy(), lab, "copy")
+                probe(pickle.loads(pickle.dumps(d)), lab, "pickle")
+                probe(d.iloc[1:], lab, "iloc")
+                probe(d[d[vlab] >= 0], lab, "filter")
+                probe(pd.concat([d, d]), lab, "concat")
+                probe(d[[lab, vlab]], lab, "column subset")
+                base.set_geometry(lab, inplace=True)
+                probe(base, lab, "set_geometry(inplace=True)")
+                probe(GeoDataFrame(base), lab, "GeoDataFrame(frame set in place)")
+
+
 def run(ctx):
     scratch = ctx.scratch()
     depth = 3
@@ -498,7 +588,7 @@ def run(ctx):
     nshards = 16 if ctx.thorough else 8
     if ctx.thorough:
         depth = 4
-    units = [(a, s, pn) for a in ("lines", "polys") for s in range(nshards) for pn in ("pts", "geometry")]
+    units = [(a, s, pn) for a in ("lines", "polys") for s in range(nshards) for pn in ("pts", "geometry", "falsy")]
     # verify the hand-written selection tables against the library once (harness self-check)
     PTS_NAME[0] = "pts"
     df = base_frame("lines")
@@ -509,10 +599,13 @@ def run(ctx):
                 raise core.HarnessError(f"selection table wrong for {c} {b}: {got}")
 
     def work(col, i):
+        if i == len(units):
+            label_probes(col)
+            return
         a, s, pn = units[i]
         explore(col, a, depth, s, nshards, scratch, pn)
 
-    core.pmap(ctx, work, len(units))
+    core.pmap(ctx, work, len(units) + 1)
     c = ctx.col.counters
     ctx.coverage_extra.update({
         "states": int(c.get("states", 0)), "transitions": int(c.get("transitions", 0)),
